@@ -151,3 +151,69 @@ Proof.
   unfold summary, case_code. destruct (run (k_cfg c) (k_ops c)); [|reflexivity].
   destruct (k_b c); [|destruct (k_ok c); reflexivity]. destruct (build (k_cfg c) b s); reflexivity.
 Qed.
+
+(* ================================================================== (round 4) DISK builds
+   A real `compile_jmc` into a real output directory (previous output, #static folders, a #copy folder that ships its own
+   function tags, custom jmc.txt): the logged operations are replayed as above, Model.AllocDisk.dbuild is run on the files that
+   were in the output directory / the #copy folder when the build started, and the tree it predicts must be the tree read back
+   from disk (tag files compared as parsed JSON: other keys + list of values). *)
+From JMCV Require Import Model.AllocDisk.
+
+Record dcase := mkDCase {
+  d_cfg : cfg; d_ops : list op; d_b : option bdata; d_env : denv;
+  d_ok : bool; d_exc : string; d_jmc : bool;
+  d_after : dtree                 (* the regular files of the output directory after the build *)
+}.
+Definition dcontent_eqb (a b : dcontent) : bool :=
+  match a, b with
+  | DText x, DText y => String.eqb x y
+  | DTag x vs, DTag y ws => String.eqb x y && strs_eqb vs ws
+  | _, _ => false
+  end.
+Definition same_tree (m r : dtree) : bool :=
+  forallb (fun kv => match dget (fst kv) m with Some v => dcontent_eqb v (snd kv) | None => false end) r
+  && forallb (fun kv => dmem (fst kv) r) m.
+Definition derr_matches (e : derr) (c : dcase) : bool :=
+  match e with
+  | DBuild e' => err_matches e' (mkCase (d_cfg c) (d_ops c) (d_b c) (d_ok c) (d_exc c) (d_jmc c) [])
+  | DTagErr => negb (d_ok c) && String.eqb (d_exc c) "JMCBuildError"
+  end.
+(* [code; undisciplined; generated files not closed on the predicted tree; load not registered; tick not registered / stale own entry;
+    a generated file sits on a tag path] — code: 0 agree, 1 op replay differs, 2 real ok but no build logged, 3 error class differs,
+   4 tree differs, 5 model accepts but real rejects *)
+Definition dsummary (c : dcase) : list nat :=
+  match run (d_cfg c) (d_ops c) with
+  | None => [1; 0; 0; 0; 0; 0]%nat
+  | Some st =>
+      match d_b c with
+      | None => [if d_ok c then 2 else 0; 0; 0; 0; 0; 0]%nat
+      | Some b =>
+          match dbuild (d_cfg c) (d_env c) b st with
+          | inl e => [if derr_matches e c then 0 else 3; 0; 0; 0; 0; 0]%nat
+          | inr tree =>
+              match build (d_cfg c) b st, assemble (d_cfg c) b st with
+              | inr files, inr hf =>
+                  [if d_ok c then (if same_tree tree (d_after c) then 0%nat else 4%nat) else 5%nat;
+                   b2n (negb (alloc_disc (d_ops c) && disc (d_cfg c) b st));
+                   b2n (negb (disk_closedb (d_cfg c) files tree));
+                   b2n (negb (load_registered (d_cfg c) tree));
+                   b2n (negb (tick_registered (d_cfg c) (tick_nonempty (d_cfg c) (fst hf) (snd hf)) tree));
+                   b2n (negb (disk_tag_free (d_cfg c) (gen_files (d_cfg c) b st)))]
+              | _, _ => [6; 0; 0; 0; 0; 0]%nat      (* impossible: Proofs.AllocDisk.dbuild_build *)
+              end
+          end
+      end
+  end.
+Definition dsummaries (l : list dcase) : list (list nat) := map dsummary l.
+(* diagnostics: the paths on which the predicted and the real tree differ *)
+Definition dtree_diff (c : dcase) : list string :=
+  match run (d_cfg c) (d_ops c), d_b c with
+  | Some st, Some b =>
+      match dbuild (d_cfg c) (d_env c) b st with
+      | inr tree =>
+          (map fst (filter (fun kv => negb (match dget (fst kv) tree with Some v => dcontent_eqb v (snd kv) | None => false end)) (d_after c))
+           ++ map (fun kv => ("model only: " ++ fst kv)%string) (filter (fun kv => negb (dmem (fst kv) (d_after c))) tree))%list
+      | inl _ => ["<model: error>"]
+      end
+  | _, _ => ["<no run>"]
+  end.
